@@ -932,7 +932,7 @@ impl Vm {
           ),
         )
       },
-      ImportResult::CompileError => ExecutionSignal::Exit,
+      ImportResult::CompileError => self.set_exit(1),
     };
 
     self.pop_roots(2);
@@ -1014,7 +1014,7 @@ impl Vm {
           ),
         )
       },
-      ImportResult::CompileError => ExecutionSignal::Exit,
+      ImportResult::CompileError => self.set_exit(1),
     };
 
     self.pop_roots(2);
